@@ -20,11 +20,13 @@ def M(level, claim, note, explanation, trusted=(), assumptions=(), externals=())
 
 META = {
     "C01": M("other",
-             "Proved for all inputs: every setter route that ends in Config._set_value / __setattr__ / _set_default_value / load_tree stores exactly the value the field's "
-             "validate returned, which satisfies accepts(field, .), and changes no other key or object (frame). NOT yet proved: the per-class definitions of accepts "
-             "(validators, C05) and the typed list/dict proxies; those parts are decided by the bounded driver (all field classes x all public routes x sequences <= 3).",
-             "virtual contract of Field.validate (result is None or accepts(field, result)) is what callers rely on; per-class refinement is bounded. " + ACYCLIC,
-             "deductive part: core setters against the virtual validate contract; bounded part: run-time invariant walk after every step",
+             "Proved for all inputs (86 obligations): every setter route that ends in Config._set_value / __setattr__ / _set_default_value / load_tree stores exactly the value the "
+             "field's validate returned, which satisfies accepts(field, .), and changes no other key or object (frame); the per-class meaning of accepts for StringField (all "
+             "options), NumberField (IntField/FloatField/PortField: type, min, max with exact int/float comparison), BoolField, BytesField, ChallengeField; typed lists: every item "
+             "stored by append / insert / index assignment / extend / construction satisfies the item field, typed dicts: item assignment and setdefault. NOT proved: the net / file "
+             "/ url validators (external parsers), slice and bulk dict operations; those are decided by the bounded driver (all field classes x all public routes x sequences <= 3).",
+             "virtual contract of Field.validate (result is None or accepts(field, result)) is what callers rely on; per-class refinement proved for 5 validator classes, bounded for the rest. " + ACYCLIC,
+             "deductive part: core setters against the virtual validate contract + per-class refinements; bounded part: run-time invariant walk after every step",
              assumptions=[ACYCLIC, ADOPT, FIELDS1, "custom validators return values that satisfy the field's declared constraints"]),
     "C02": M("other",
              "Proved: Config.to_tree renders exactly the stored persistent fields (virtual ones only on request, never instance methods), nested configurations recursively with "
@@ -34,11 +36,15 @@ META = {
              "to_tree verified with inductive loop invariants over the merged field table",
              assumptions=[FIELDS1, ACYCLIC]),
     "C03": M("other",
-             "Proved: sub-configurations created by default, by assignment of a map and by Schema.__call__ carry parent and key (the `linked` clauses), so key-file lookup walks to the "
-             "right ancestor; dumps/to_tree/save touch no file other than key files (fs frame). Config._keyfile resolution itself, SecureField.to_basic/to_python shapes and "
-             "'no plaintext in the output' are decided by the bounded driver (nesting depth 3, lists, config types, 5 formats, key file named at root/sub/type).",
+             "Proved (226 obligations): Config._keyfile uses the key file named on the configuration itself, else the one named on its parent (recursively through the same contract), "
+             "else a default KeyFile kept in a slot of its own - looking a key file up never names one on any configuration (frame on the naming slot); a rebuilt sub-configuration "
+             "takes over the key files named in the one it replaces; sub-configurations created by default, by assignment of a map and by Schema.__call__ carry parent and key; "
+             "SecureField.to_basic writes null for an empty secret and otherwise a new map with exactly `method` (aes|xor) and a text `ciphertext`, to_python passes null/plain text "
+             "through and requires method + text ciphertext; dumps/to_tree/save touch no file other than key files (fs frame); cipher inversion lemmas (C08). Bounded, not proved: "
+             "that a second session with the same key file decrypts to the same plaintext end to end (a history over the file system) and 'plaintext absent from the bytes' - driver: "
+             "nesting depth 3, lists, config types, 5 formats, key file named at root/sub/type, 18 key-file histories.",
              "cryptographic secrecy is not claimed; 'plaintext absent' is a structural/bounded check",
-             "parent links proved, key-file use bounded"),
+             "key-file resolution, links and secret shapes proved; cross-session decryption bounded"),
     "C04": M("other",
              "Proved for all inputs (129 obligations): /repo's part of every format. JSON/BSON/pickle wrappers hand tree and bytes through unchanged; the YAML root key wraps on the way "
              "out exactly what it unwraps on the way in (falsy root key = none); 8 lemmas: each format decodes what it encoded and options (pretty/compact, root key) never change the "
@@ -49,11 +55,13 @@ META = {
              "json/yaml/bson/pickle/ElementTree/minidom laws are third-party: assumed + sampled; recursive tree equality is outside the encoding",
              "contracts on the real format classes discharged by z3/cvc5 + bounded run-time contract checking of loads(dumps(t)) == t"),
     "C05": M("other",
-             "Proved: Field.validate (required / None / custom validator chain) against its virtual contract. The per-class exactness, idempotence and codec inverse clauses are "
-             "decided by the bounded driver: every built-in field class x option grid (all pairs, boundaries, 0/None) x values of every Python type, against an independent "
-             "reference of ok/norm written from the property text (225k cases per quick run).",
-             "regex / ipaddress / urlparse / os.path semantics are external",
-             "bounded run-time contract checking of validate/to_basic/to_python per field class"),
+             "Proved (52 obligations): Field.validate (required / None / custom validator chain) against its virtual contract; exactness of StringField (normal form = strip then "
+             "case, rejected only if a constraint fails), NumberField (a number of the field's type within the bounds is kept as it is and never rejected, text is parsed, bools and "
+             "non-numbers are refused, result within bounds), BoolField (token sets), BytesField (validation + base64/hex codec inverse), ChallengeField. The remaining classes (net, "
+             "file, url, list, dict), idempotence and codec inverses are decided by the bounded driver: every built-in field class x option grid (all pairs, boundaries, 0/None) x "
+             "values of every Python type, against an independent reference of ok/norm written from the property text (225k cases per quick run).",
+             "regex / ipaddress / urlparse / os.path semantics are external; int()/float() parsing of text is an assumed law (int_ok/int_parse)",
+             "contracts per validator class discharged by z3/cvc5 + bounded run-time contract checking of validate/to_basic/to_python per field class"),
     "C06": M("proof",
              "For all states and all arguments: every exceptional exit of Config._set_value, __setattr__, load_tree (receiver only), Schema.__call__, __setdefault__ leaves every "
              "attribute of every pre-existing object unchanged (frame obligation over the whole heap, parent/key/container links of adopted values excepted). "
